@@ -73,7 +73,7 @@ void run(const Workload& w, Result& res, bool tracked) {
     constexpr int NS = 3;
     std::unique_ptr<C> t[NS];
     std::multiset<int> shadow[NS];
-    const int universe = int(4 + sim::modn(sim::cfg_at(w, C_UNIVERSE), 37));
+    const int universe = int(4 + sim::modn(sim::cfg_at(w, C_UNIVERSE), 397));
     static const char* names[] = {"insert", "insert_hint", "insert_range", "erase_key", "erase_one", "erase_iter", "clear", "copy_ctor",
                                   "assign", "swap", "bulk_load", "destroy", "construct"};
     int step = 0, payload = 1;
@@ -83,7 +83,7 @@ void run(const Workload& w, Result& res, bool tracked) {
         if (op.empty()) continue;
         int code = int(sim::modn(op[0], B_N));
         int i = int(sim::modn(op.size() > 1 ? op[1] : 0, NS)), j = int(sim::modn(op.size() > 2 ? op[2] : 0, NS));
-        int k = int(sim::modn(op.size() > 3 ? op[3] : 0, universe));
+        int k = int(sim::modn(op.size() > 3 ? op[3] : 0, universe));   // (op[3] may exceed the universe: big-tree mode)
         int arg = int(sim::modn(op.size() > 4 ? op[4] : 0, 64));
         if (!t[i] && code != B_CONSTRUCT && code != B_COPY_CTOR) { t[i] = std::make_unique<C>(); shadow[i].clear(); }
         std::string at = std::string(names[code]) + "(" + std::to_string(i) + "," + std::to_string(j) + "," + std::to_string(k) + "," + std::to_string(arg) + ") at step " + std::to_string(step);
@@ -121,7 +121,7 @@ void run(const Workload& w, Result& res, bool tracked) {
                 if (!shadow[i].empty()) {
                     // an iterator inside a duplicate run / at leaf borders: advance from begin
                     auto it = t[i]->begin();
-                    std::advance(it, long(size_t(arg + k) % t[i]->size()));
+                    std::advance(it, long(size_t(arg * 7 + k) % t[i]->size()));
                     int kk = V::key(*it);
                     t[i]->erase(it);
                     auto f = shadow[i].find(kk);
@@ -139,7 +139,8 @@ void run(const Workload& w, Result& res, bool tracked) {
             case B_BULK_LOAD: {
                 t[i]->clear(); shadow[i].clear();
                 // sizes around 0, 1 and multiples of the node capacities
-                static const int sizes[] = {0, 1, 3, 4, 5, 7, 8, 9, 15, 16, 17, 20, 24, 25, 31, 32, 33, 40, 48, 49, 63, 64, 65, 80, 100, 127, 128, 129};
+                static const int sizes[] = {0, 1, 3, 4, 5, 7, 8, 9, 15, 16, 17, 20, 24, 25, 31, 32, 33, 40, 48, 49, 63, 64, 65, 80, 100, 127, 128, 129,
+                                            160, 200, 255, 256, 257, 300, 400};
                 int n = sizes[size_t(arg) % (sizeof(sizes) / sizeof(sizes[0]))];
                 std::vector<int> keys;
                 for (int q = 0; q < n; ++q) keys.push_back(Dup ? (q * universe) / std::max(n, 1) : q);
@@ -166,6 +167,7 @@ void run(const Workload& w, Result& res, bool tracked) {
                 elems += t[s]->size();
                 if (st.inner_nodes > 0) res.probe("has_inner_nodes");
                 if (st.leaves + st.inner_nodes >= 12) res.probe("three_levels_or_more_nodes");
+                if (st.inner_nodes >= 8) res.probe("eight_or_more_inner_nodes");
             }
             if (sim::alloc_env().live_blocks() != nodes)
                 res.fail("btree_nodes", std::to_string(sim::alloc_env().live_blocks()) + " nodes are allocated, the trees account for " + std::to_string(nodes) + ", " + at);
@@ -215,10 +217,29 @@ void execute(const Workload& w, Result& res) {
 }
 
 void generate(Rng& r, Workload& w, int tier) {
-    w.cfg = {int64_t(r.below(NVARIANTS)), int64_t(r.below(5)), int64_t(r.below(4)), int64_t(r.below(37))};
+    int mode = int(r.below(4));   // 0 mixed, 1 insert heavy then erase heavy, 2 small, 3 big tree then long erase phase
+    int64_t universe = mode == 3 ? int64_t(r.range(60, 396)) : int64_t(r.below(37));
+    w.cfg = {int64_t(r.below(NVARIANTS)), int64_t(r.below(5)), int64_t(r.below(4)), universe};
     int n = int(r.range(1, tier ? 160 : 120));
-    int mode = int(r.below(3));   // 0 mixed, 1 insert heavy then erase heavy, 2 small
     if (mode == 2) n = int(r.range(1, 20));
+    if (mode == 3) {
+        // a tree of several levels (bulk load or many inserts), then mostly erases of all three kinds:
+        // the underflow / merge / shift branches high up in the tree need many removals to be reached
+        n = int(r.range(60, tier ? 400 : 260));
+        if (r.chance(1, 2)) w.ops.push_back({B_BULK_LOAD, 0, 0, 0, int64_t(28 + r.below(7))});
+        else for (int i = 0; i < int(r.range(40, 200)); ++i) w.ops.push_back({B_INSERT, 0, 0, int64_t(r.below(400)), 0});
+        int erase_kind = int(r.below(4));   // 3: mixed
+        for (int i = 0; i < n; ++i) {
+            uint64_t k = r.below(100);
+            int64_t code;
+            if (k < 72) code = erase_kind == 3 ? B_ERASE_KEY + int64_t(r.below(3)) : B_ERASE_KEY + erase_kind;
+            else if (k < 97) code = B_INSERT + int64_t(r.below(2));
+            else code = r.chance(1, 2) ? B_COPY_CTOR : B_SWAP;
+            int64_t slot = (code == B_COPY_CTOR || code == B_SWAP) ? int64_t(r.below(3)) : 0;
+            w.ops.push_back({code, slot, int64_t(r.below(3)), int64_t(r.below(400)), int64_t(r.below(64))});
+        }
+        return;
+    }
     for (int i = 0; i < n; ++i) {
         int64_t code;
         uint64_t k = r.below(100);
@@ -232,7 +253,7 @@ void generate(Rng& r, Workload& w, int tier) {
     }
 }
 
-const sim::HarnessDef def = {"C02", true, 120, generate, execute, nullptr};
+const sim::HarnessDef def = {"C02", true, 30, generate, execute, nullptr};
 
 } // namespace
 
